@@ -276,3 +276,67 @@ pub fn strip(msg: &[u8], t: &TsigRr) -> Vec<u8> {
     body[10..12].copy_from_slice(&ar.to_be_bytes());
     body
 }
+
+/// Sign with full control: the algorithm *name* put into the TSIG RR (and the digest) and the HMAC
+/// actually used may differ (for "right key, other algorithm field" forgeries).
+pub fn sign_custom(msg: &[u8], name: &Labels, alg_field: &Labels, mac_alg: Alg, secret: &[u8], time: u64, fudge: u16) -> Vec<u8> {
+    let id = u16::from_be_bytes([msg[0], msg[1]]);
+    let mut d = msg.to_vec();
+    variables(&mut d, name, 255, 0, alg_field, time, fudge, 0, &[]);
+    let mac = hmac_sign(mac_alg, secret, &d);
+    append_tsig(msg, name, alg_field, time, fudge, &mac, id, 0, &[])
+}
+
+/// byte regions of a message carrying a TSIG as last additional record: (start offset, label),
+/// ascending; used to name where a bit flip landed
+pub fn regions(msg: &[u8]) -> Vec<(usize, String)> {
+    let mut v: Vec<(usize, String)> = vec![(0, "header-id".into()), (2, "header-flags".into()), (4, "header-counts".into())];
+    let Ok(w) = refwire::walk(msg) else { return v };
+    v.push((12, "question".into()));
+    let names = ["answer", "authority", "additional"];
+    for (si, sec) in w.sections.iter().enumerate() {
+        for r in sec {
+            if r.rtype == T_TSIG && si == 2 {
+                let fixed = r.rdata_off - 10;
+                v.push((r.start, "tsig-name".into()));
+                v.push((fixed, "tsig-type".into()));
+                v.push((fixed + 2, "tsig-class".into()));
+                v.push((fixed + 4, "tsig-ttl".into()));
+                v.push((fixed + 8, "tsig-rdlen".into()));
+                v.push((r.rdata_off, "tsig-alg".into()));
+                if let Ok((_, p)) = refwire::read_name(msg, r.rdata_off) {
+                    v.push((p, "tsig-time".into()));
+                    v.push((p + 6, "tsig-fudge".into()));
+                    v.push((p + 8, "tsig-macsize".into()));
+                    v.push((p + 10, "tsig-mac".into()));
+                    if p + 10 <= msg.len() {
+                        let ml = u16::from_be_bytes([msg[p + 8], msg[p + 9]]) as usize;
+                        v.push((p + 10 + ml, "tsig-origid".into()));
+                        v.push((p + 12 + ml, "tsig-error".into()));
+                        v.push((p + 14 + ml, "tsig-other".into()));
+                    }
+                }
+            } else {
+                let fixed = r.rdata_off - 10;
+                v.push((r.start, format!("{}-owner", names[si])));
+                v.push((fixed, format!("{}-type-class-ttl-rdlen", names[si])));
+                v.push((r.rdata_off, format!("{}-rdata", names[si])));
+            }
+        }
+    }
+    v.push((w.end, "trailing".into()));
+    v.sort();
+    v
+}
+
+pub fn region_of(regions: &[(usize, String)], pos: usize) -> String {
+    let mut cur = "header-id";
+    for (s, l) in regions {
+        if *s <= pos {
+            cur = l;
+        } else {
+            break;
+        }
+    }
+    cur.to_string()
+}
